@@ -7,6 +7,7 @@ import "strings"
 // decimals and exponent forms.
 
 var hostileWords = []string{
+	"a\\\"b", "\\\"", "x\\\"\\;y", "a\\'b", "na\\\"me",
 	"010", "0x1F", "0b11", "0o17", "02134", "-010", "00", "08", "1e+5", "9007199254740993",
 	"a", "foo", "x_y", "NaN", "nan", "inf", "Inf", "Infinity", "-inf", "1e5", "1e-5", "1e400", "0x1p-2", "1_000", "007", "-0", "-0.0", "5.0", "0.001", "0.005", "1.005",
 	"2.675", "123456789.125", "1e21", "1e-7", "100000", "1000000", "9223372036854775807", "9223372036854775808", "-9223372036854775808", "-9223372036854775809",
